@@ -22,10 +22,20 @@ CONV = {
 
 def worker(unit, emit):
     key, row, p, vopts = unit
-    name, fn = key.split(':')
+    name, fn = key.split('#')[0].split(':')
     mod = lib.module(name)
     f = getattr(mod, fn)
     conv = row['conv']
+    bnd = row.get('b', [0, 0, 0, 1])
+
+    def slicer(v):
+        if conv != 'gen':
+            return CONV[conv](v)
+        pa, pb, ck, cn = bnd
+        pb2 = len(v) + pb if pb <= 0 else pb
+        ck2 = len(v) + ck if ck < 0 else ck
+        return v[pa:pb2], ck2, cn
+    excl = set(getattr(mod, row['exclude_attr'])) if row.get('exclude_attr') else set()
     rnd = random.Random('%s/%s' % (p['seed'], key))
     vals = []
     for c in lib.corpus(name, mod):
@@ -33,7 +43,7 @@ def worker(unit, emit):
             v = mod.validate(c, **vopts)
         except Exception:
             continue
-        if isinstance(v, str) and v not in vals and len(v) >= 3 and (not row.get('domain_re') or re.search(row['domain_re'], v)):
+        if isinstance(v, str) and v not in vals and v not in excl and len(v) >= 3 and (not row.get('domain_re') or re.search(row['domain_re'], v)):
             vals.append(v)
     vals.sort()
     vals = lib.pick(vals, p['bases'], rnd)
@@ -47,8 +57,8 @@ def worker(unit, emit):
         v = queue.pop(0)
         done += 1
         is_synth = done > len(vals)
-        payload, lo, n = CONV[conv](v)
-        base = {'m': name, 'fn': fn, 'conv': conv, 'v': lib.cps(v)}
+        payload, lo, n = slicer(v)
+        base = {'m': name, 'fn': fn, 'conv': conv, 'v': lib.cps(v), 'b': bnd}
         r = lib.call(f, payload)
         emit.trace([dict(base, kind='p1', arg=lib.cps(payload), r=ac.slim(r))],
                    {'m': name, 'w': v, 'how': 'p1 %s(%r)' % (fn, payload), 'site': r['site']})
@@ -69,7 +79,7 @@ def worker(unit, emit):
                     emit.count('p2')
         # p3: well-formed payloads (shape of a valid number, payload characters re-drawn) + generated characters
         single = len([x for x in dir(mod) if x.startswith('calc_check') and callable(getattr(mod, x))]) == 1
-        for _ in range(p['payloads'] if single and not is_synth else 0):
+        for _ in range(p['payloads'] if single and not is_synth and not row.get('no_p3') else 0):
             w = list(v)
             k = 1 + rnd.randrange(3)
             for _i in range(k):
@@ -85,7 +95,9 @@ def worker(unit, emit):
                 continue
             if row.get('p3_domain_re') and not re.search(row['p3_domain_re'], w):
                 continue
-            pl, lo2, n2 = CONV[conv](w)
+            pl, lo2, n2 = slicer(w)
+            if w in excl:
+                continue
             g = lib.call(f, pl)
             if g['k'] == 'ret' and g['t'] == 'str':
                 ed = w[:lo2] + lib.from_cps(g['v']) + w[lo2 + n2:]
